@@ -616,6 +616,8 @@ def binop(interp, op, a, b, inplace=False):
             return BytesV(list(a.rope) + list(b.rope), a.kind)
         if t is ast.Mult and isinstance(b, int):
             return BytesV(list(a.rope) * b, a.kind)
+        if t is ast.Mod or (t is ast.Mult and is_intlike(b)):
+            raise Unsupported("bytes % args / bytes * symbolic count is not modelled")
         interp.throw("TypeError", "unsupported operand type(s) for bytes")
     if isinstance(a, str) and isinstance(b, str) and t is ast.Add:
         return a + b
@@ -651,7 +653,12 @@ def binop(interp, op, a, b, inplace=False):
         if r is not NOT_IMPLEMENTED:
             return r
     if not (is_intlike(a) and is_intlike(b)):
-        interp.throw("TypeError", f"unsupported operand type(s): {type_name(interp, a)} and {type_name(interp, b)}")
+        # only combinations Python certainly refuses are program errors; anything else is simply not modelled here
+        def basic(v):
+            return v is None or is_intlike(v) or isinstance(v, BytesV)
+        if basic(a) and basic(b):
+            interp.throw("TypeError", f"unsupported operand type(s): {type_name(interp, a)} and {type_name(interp, b)}")
+        raise Unsupported(f"operator on {type_name(interp, a)} and {type_name(interp, b)} is not modelled")
     if t is ast.Add:
         return ops.add(a, b)
     if t is ast.Sub:
